@@ -37,8 +37,8 @@ def _world(m, kind, w=0, h=0, d=0):
         env._index_offset = 1
     else:
         env = _REAL[kind]
-        env.agents = {}
-        env.components = {}
+        env.agents.clear()
+        env.components.clear()
         env.set_model(m)
     m.environment = env
     return env
